@@ -58,6 +58,12 @@ def validate(rep: dict, proj: Path | None, executed_ids: list[str] | None, tree_
                 nlines = len(tree_after[path].decode("utf-8", "replace").splitlines()) or 1
                 if tree_before is not None and path in tree_before:
                     nlines = max(nlines, len(tree_before[path].decode("utf-8", "replace").splitlines()))
+                # ... and, when several codemods rewrite one file, against the file as this codemod met it: an earlier codemod of
+                # the run may have made it longer than it was before the run and than it is after it (the hunk headers say how long)
+                import re as _re
+                for mm in _re.finditer(r"^@@ -(\d+)(?:,(\d+))? \+(\d+)(?:,(\d+))? @@", cs.get("diff") or "", _re.M):
+                    a0, al, b0, bl = int(mm.group(1)), int(mm.group(2) or 1), int(mm.group(3)), int(mm.group(4) or 1)
+                    nlines = max(nlines, a0 + al - 1, b0 + bl - 1)
             for c in chs:
                 ln = c.get("lineNumber")
                 if not isinstance(ln, int) or isinstance(ln, bool) or ln < 1:
